@@ -244,7 +244,7 @@ def histories(tier):
 
 
 # ------------------------------------------------------------------ key generation
-GEN = [("oct", 8), ("oct", 128), ("oct", 256), ("oct", 512), ("RSA", 512), ("RSA", 768), ("RSA", 1016), ("RSA", 1024), ("RSA", 2048), ("EC", "P-256"), ("EC", "P-384"), ("EC", "P-521"), ("EC", "secp256k1"),
+GEN = [("oct", 8), ("oct", 128), ("oct", 256), ("oct", 512), ("RSA", 512), ("RSA", 768), ("RSA", 1016), ("RSA", 1024), ("RSA", 2048), ("RSA", 3072), ("EC", "P-256"), ("EC", "P-384"), ("EC", "P-521"), ("EC", "secp256k1"),
        ("OKP", "Ed25519"), ("OKP", "Ed448"), ("OKP", "X25519"), ("OKP", "X448")]
 
 
@@ -265,7 +265,9 @@ def h_generate(ctx):
     alg_for = {"oct": {64: "HS512", 128: "A128KW", 256: "HS512", 512: "A128GCM"}.get(arg, "HS256"), "RSA": "RS256", "EC": "ES256", "OKP": "EdDSA"}[kt]
     pkind = ctx.choose("parameters", ["none", "one shared dict", "one shared dict naming an alg"])
     template = None if pkind == "none" else ({"use": "sig" if kt != "oct" else "enc"} if pkind == "one shared dict" else {"alg": alg_for})
-    n = (8 if arg == 1024 else 3) if kt == "RSA" else (64 if pkind == "none" else 8)
+    n = (8 if arg == 1024 else (3 if arg < 3072 else 2)) if kt == "RSA" else (64 if pkind == "none" else 8)
+    if kt == "RSA" and arg >= 3072 and pkind != "none":
+        return Outcome("n/a", [], nontrivial=None)        # large keys: the plain call of each generator only (they take seconds each)
     seam.install()
     start = seam.begin_call("gen")
     refused = None
@@ -440,7 +442,15 @@ def h_recipients(ctx):
         [c for c in itertools.combinations_with_replacement(range(len(pool)), 3) if (sum(c) % 5 == 0 or config.thorough())]
     combo = ctx.choose("mix", combos)
     enc = ctx.choose("enc", ["A128CBC-HS256", "A256GCM"] if fam == "rfc7518" else ["A128CBC-HS256"])
-    obj = jwe.GeneralJSONEncryption({"enc": enc}, b"plaintext")
+    names = [pool[i][0] for i in combo]
+    # recipients that all use one algorithm may have it named once for the whole message (RFC 7520 5.13 names it per recipient, 5.10 in the protected header)
+    named_in = ctx.choose("alg_named_in", ["each recipient's header", "the protected header", "the shared unprotected header"] if len(set(names)) == 1 else ["each recipient's header"])
+    if named_in == "the protected header":
+        obj = jwe.GeneralJSONEncryption({"alg": names[0], "enc": enc}, b"plaintext")
+    elif named_in == "the shared unprotected header":
+        obj = jwe.GeneralJSONEncryption({"enc": enc}, b"plaintext", {"alg": names[0]})
+    else:
+        obj = jwe.GeneralJSONEncryption({"enc": enc}, b"plaintext")
     privs = []
     sender = {k: scen.key(k, 5) for k in ("P-256", "X25519")}
     skey = None
@@ -448,8 +458,7 @@ def h_recipients(ctx):
         alg, kind, which = pool[i]
         jwk = scen.key(kind, which)
         privs.append((alg, jwk))
-        obj.add_recipient({"alg": alg, "kid": f"r{j}"}, A.jkey(jwk if jwk["kty"] == "oct" else rjwk.public_of(jwk), "dict"))
-    names = [pool[i][0] for i in combo]
+        obj.add_recipient({"alg": alg, "kid": f"r{j}"} if named_in.startswith("each") else {"kid": f"r{j}"}, A.jkey(jwk if jwk["kty"] == "oct" else rjwk.public_of(jwk), "dict"))
     if fam == "ecdh-1pu":
         kinds = {pool[i][1] for i in combo}
         if len(kinds) > 1:
@@ -462,9 +471,9 @@ def h_recipients(ctx):
     finally:
         seam.uninstall()
     vs = []
-    what = f"{names} enc={enc}"
+    what = f"{names} enc={enc}, alg named in {named_in}"
     if not r.ok:
-        return Outcome("encrypt-failed", [viol("encryption for several recipients fails", f"{what}: {r.exc!r}")], nontrivial=(fam, combo, enc))
+        return Outcome("encrypt-failed", [viol("encryption for several recipients fails", f"{what}: {r.exc!r}")], nontrivial=(fam, combo, enc, named_in))
     t = rjwe.parse(r.value)
     seen = {"epk": [], "iv": [], "p2s": []}
     for j, (rh, ek) in enumerate(t["recipients"]):
@@ -493,7 +502,7 @@ def h_recipients(ctx):
     for k, vals in seen.items():
         if len(set(vals)) != len(vals):
             vs.append(viol(f"{label[k]} of the recipients of one message are not pairwise distinct", f"{what}: {[v.hex() if isinstance(v, bytes) else v for v in vals]}"))
-    return Outcome(f"{fam}:{n}:{'ok' if not vs else 'bad'}", vs, nontrivial=(fam, combo, enc))
+    return Outcome(f"{fam}:{n}:{'ok' if not vs else 'bad'}", vs, nontrivial=(fam, combo, enc, named_in))
 
 
 # ------------------------------------------------------------------ E3: two encryptions at the same time
